@@ -107,14 +107,17 @@ func judgeTakeover(w *world) {
 			}
 			// its subscriptions are intact
 			subs := subsOfSession(l, newest.sid)
-			want := 0
+			distinct := map[string]bool{}
 			for si, s := range w.c.Steps {
 				if s.K == "sub" && s.C == newest.idx && w.txStamp(si, s.C, tSUBSCRIBE) >= 0 {
 					if ok, _ := w.ackSeen(s.C, newest.epoch, tSUBACK, int(s.I), w.txStamp(si, s.C, tSUBSCRIBE)); ok {
-						want += len(s.L)
+						for _, f := range s.L {
+							distinct[f] = true
+						}
 					}
 				}
 			}
+			want := len(distinct)
 			if len(subs) != want {
 				w.o.violate("C12", "newest-lost-subscriptions", len(w.c.Steps), endMs, nil, "node %d lists %d subscriptions of the newest session %s, it made %d: %v", ni, len(subs), newest.sid, want, subs)
 				break
@@ -162,11 +165,23 @@ func judgeTakeover(w *world) {
 			}
 			break
 		}
-		// nothing is delivered to a displaced session after the final settle's traffic
-		for _, ex := range old.exch {
-			if strings.HasPrefix(ex.tag, "late") {
-				w.o.violate("C12", "displaced-session-receives", len(w.c.Steps), endMs, nil, "displaced client %d received %s", old.idx, ex.tag)
-				break
+		// once it has had its keep-alive exchange on a host that knew the successor, nothing more
+		// is delivered to a displaced session
+		toldAt := int64(-1)
+		for _, ob := range w.obs {
+			if !ob.Rx && ob.Client == old.idx && ob.Epoch == old.epoch && ob.P.Type == tPINGREQ {
+				if k, ok := w.pingKnow[ob.Stamp]; ok && k.newKnown {
+					toldAt = ob.AtMs
+					break
+				}
+			}
+		}
+		if toldAt >= 0 {
+			for _, ex := range old.exch {
+				if ex.firstAt > toldAt+1000 {
+					w.o.violate("C12", "displaced-session-receives", len(w.c.Steps), endMs, nil, "displaced client %d received %s at %dms, after its keep-alive exchange at %dms on a host that knew its successor", old.idx, ex.tag, ex.firstAt, toldAt)
+					break
+				}
 			}
 		}
 	}
@@ -848,6 +863,9 @@ func judgeHostile(w *world) {
 	endMs := w.nowMs()
 	wit := w.clients[0]
 	by := w.clients[1]
+	if wit == nil || by == nil {
+		return // shrunk away: nothing to judge
+	}
 	judged := 0
 	for si, s := range w.c.Steps {
 		if s.K != "pub" || s.C != 0 {
